@@ -113,7 +113,8 @@ def ent_text(rng, imports=(), fail=None, big=False):
             s += ", " + rng.choice(names)
         lines.append(s)
     if fail == "ref":
-        lines.append("ref rx -> " + rng.choice(["nope", "zz"]))
+        # unknown name: one that no text defines, or one that other texts of the pool do define
+        lines.append("ref rx -> " + rng.choice(["nope", "zz"] + [n for n in NAMES if n not in names]))
     text = rng.choice(["\n", " ", "\n  "]).join(lines) + rng.choice(["", "\n"])
     if fail == "syntax":
         toks = text.split(" ")
@@ -169,7 +170,7 @@ def calc_text(rng, fail=None):
         if rng.chance(0.15):
             out.append("// note")
     if fail == "ref":
-        out.append("print nope1 + 1;")
+        out.append("print " + rng.choice(["nope1", "u0", "v0", "w1", "k0"]) + " + 1;")
     text = rng.choice([" ", "\n"]).join(out)
     if fail == "syntax":
         i = rng.below(len(text))
@@ -217,6 +218,8 @@ def ent_cfg(rng, fqn=False, files=False):
         opts["auto_init_attributes"] = False
     if rng.chance(0.15):
         opts["ignore_case"] = True
+    if rng.chance(0.06):
+        opts["debug"] = True
     cfg = {"kind": "ent", "grammar": ENT_FQN if fqn else ENT, "opts": opts, "classes": classes,
            "objprocs": objprocs, "modelprocs": modelprocs, "scope": scope}
     if rng.chance(0.3):
@@ -228,6 +231,8 @@ def calc_cfg(rng):
     opts = {"memoization": rng.chance(0.6)}
     if rng.chance(0.2):
         opts["autokwd"] = True
+    if rng.chance(0.06):
+        opts["debug"] = True
     classes = {"Assign": rng.choice(["plain", "setattr"])} if rng.chance(0.3) else {}
     objprocs = {}
     if rng.chance(0.3):
@@ -298,25 +303,34 @@ def mm_and_inputs(rng, k, files):
             imps = rng.sample(leaves[:2], rng.randint(1, 2)) if i == 0 else rng.sample(leaves, rng.randint(1, 3))
             files[fn] = ent_text(rng, imports=imps, fail=None if i == 0 else rng.choice([None, "ref"]))
             mids.append(fn)
+        good = [[leaves[0]], [mids[0]], [mids[0], leaves[1]]]
+        bad = [[mids[1]], [leaves[2]], ["missing_file.ent"], [f"{tag}_main0.ent", leaves[0]], [mids[0], leaves[2]]]
         mains = []
-        plans = [[leaves[0]], [mids[0]], [mids[0], leaves[1]], [mids[1]], [leaves[2]], ["missing_file.ent"], [f"{tag}_main1.ent"]]
-        for i, imps in enumerate(rng.sample(plans, 4)):
+        for i, imps in enumerate([rng.choice(good)] + rng.sample(bad, 2) + [rng.choice(good)]):
             fn = f"{tag}_main{i}.ent"
-            files[fn] = ent_text(rng, imports=imps, fail=rng.choice([None, None, None, "mpboom", "ref"]))
+            fail = None if i == 0 else rng.choice([None, None, "mpboom", "ref"])
+            files[fn] = ent_text(rng, imports=imps, fail=fail)
             mains.append(fn)
-        ops = [["file", k, fn] for fn in mains]
-        ops.append(["str", k, ent_text(rng, fail=None)])
+        # designed to be valid first: a good multi-file load and a string load
+        ops = [["file", k, mains[0]], ["str", k, ent_text(rng, fail=None)]]
+        ops += [["file", k, fn] for fn in mains[1:]]
         ops.append(["str", k, ent_text(rng, fail=rng.choice(["syntax", "ref"]))])
     return cfg, ops
 
 
 def pick_inputs(rng, ops, n):
-    """keep n inputs per metamodel (every distinct load needs its own fresh-state reference process);
-    the first one is kept (mostly a valid text), the others are drawn."""
+    """keep n inputs per metamodel (every distinct load needs its own fresh-state reference process):
+    the first two (designed to be valid) and n-2 of the others (designed to fail)."""
     if len(ops) <= n:
         return ops
-    rest = rng.sample(ops[1:], n - 1)
-    return [ops[0]] + rest
+    return ops[:2] + rng.sample(ops[2:], n - 2)
+
+
+def draw_input(rng, src):
+    """mostly valid inputs: the first two of a metamodel's inputs are drawn with probability 0.7"""
+    if len(src) > 2 and not rng.chance(0.7):
+        return rng.choice(src[2:])
+    return rng.choice(src[:2])
 
 
 def gen_case(rng, tier):
@@ -356,9 +370,9 @@ def gen_case(rng, tier):
             if loads and r.chance(0.25):
                 ops.append(r.choice(loads))
             else:
-                ops.append(r.choice(src))
+                ops.append(draw_input(r, src))
         if not any(o[0] != "new" for o in ops):
-            ops.append(r.choice(inputs[0]))
+            ops.append(draw_input(r, inputs[0]))
         histories.append(ops)
     return {"pool": pool, "extras": extras, "files": files, "histories": histories}
 
@@ -447,7 +461,16 @@ def phase_of(out):
 class Prop(Check):
     ID = "C16"
     LEAN_MODULE = "TextxVerif.Props.C16"
-    THEOREMS = []
+    THEOREMS = [
+        "History.C16_history",
+        "History.C16_reachable_rest",
+        "History.C16_noninterference",
+        "History.C16_same_as_fresh",
+        "History.C16_history_pool",
+        "History.C16_memo_frame",
+        "History.C16_noClear_false",
+        "History.C16_shareInstances_false",
+    ]
     DRIVER = "Drivers/History.lean"
     QUICK_CASES = 72
     THOROUGH_CASES = 900
@@ -456,8 +479,26 @@ class Prop(Check):
             "syntax error / unknown reference / failing user __init__, object processor, model processor / missing import); "
             "non-trivial = a history in which a successful load follows a failed load of the same metamodel or a load of "
             "another metamodel, and every outcome was compared with both fresh-state references")
-    MODELLED = ""
-    ASSUMPTIONS = []
+    MODELLED = ("hand-modelled (TextxVerif/Load/History.lean): the state that survives a load — Arpeggio memo caches on the "
+                "(partly shared) rule objects, parser blueprint / clone containers with copy.copy aliasing (model.py clone), "
+                "user-class instrumentation counters and collected attributes (model.py _replace/_restore_user_attr_methods, "
+                "_discard_user_obj_attrs), grammar-parser cache keyed by the debug flag (lang.py textX_parsers), _tx_class "
+                "back-pointer of the shared base-type rules (metamodel.py _init_class); parsing computed by the Arpeggio "
+                "mirror Peg.parse started on the surviving caches; the semantic phases (object construction, reference "
+                "resolution, __init__, processors) are parameters: arbitrary functions of what the code reads from that state. "
+                "Tie X: every history replayed by the Lean machine on the dumped real parser models; compared: parse tree / "
+                "syntax-error position of every load, number of memo-cache stores, instrumentation counts seen by user "
+                "__init__, and after every operation cache sizes, blueprint containers, clone aliasing, instrumentation "
+                "leftovers, grammar-parser cache, base-rule owner. Not exhibited: CPython object identity / GC, scope "
+                "providers with own state (GlobalRepo), metamodel-global model repository (shared by design, C17), "
+                "registered languages / `reference` statements, debug output")
+    ASSUMPTIONS = [
+        "the pool's metamodels do not share user classes, processors or scope-provider objects with each other",
+        "Arpeggio clears memo caches by walking the parser model; the model clears all entries (every written node is reachable): "
+        "checked at run time by observing zero entries on all rule objects after every load",
+        "the compiled parser model of a grammar does not depend on the memoization flag of the cached grammar parser "
+        "(the grammar parser is created by the first metamodel of a debug class): checked on the implementation by the solo reference",
+    ]
 
     def gen(self, rng, n, tier):
         for i in range(n):
@@ -465,6 +506,155 @@ class Prop(Check):
 
     def impl(self, case):
         return run_world(case, lean=True)
+
+    # ---- correspondence with the Lean machine -------------------------------------------------
+    def lean_ops(self, case, ops, run, index):
+        """the operations of one history for the Lean machine (pool creation first), or None when the
+        mirror cannot take the history."""
+        npool = len(case["pool"])
+        if "hist" not in run or "unsupported" in run.get("lean", {"unsupported": 1}):
+            return None
+        for op, st in zip(ops, run["hist"]):
+            if op[0] == "new" and not st["out"].get("created"):
+                return None  # the machine assumes that `new` succeeds
+        lops = [{"new": k} for k in range(npool)]
+        for op, st in zip(ops, run["hist"]):
+            if op[0] == "new":
+                lops.append({"new": op[1]})
+                continue
+            if op[0] == "file":
+                texts = [case["files"][f] for f in import_order(case["files"], op[2]) if f in case["files"]]
+            else:
+                texts = [op[2]]
+            if "skip" in st["out"]:
+                files = []
+            else:
+                try:
+                    files = [index[(op[1], t)] for t in texts]
+                except KeyError:
+                    return None
+            ph = phase_of(st["out"])
+            fin = {"ok": "ok", "parse": "ok", "skip": "ok", "init": "init", "objproc": "objproc",
+                   "modelproc": "modelproc"}.get(ph, "resolve")
+            lops.append({"load": op[1], "files": files, "buildFail": False, "fin": fin, "j": 0})
+        return lops
+
+    def model_req(self, case, obs):
+        if "runs" not in obs or not obs["runs"] or "crash" in obs["runs"][0]:
+            return None
+        pd = obs["runs"][0].get("lean") or {}
+        if "nodes" not in pd:
+            return None
+        npool = len(case["pool"])
+        cfgs = list(case["pool"]) + list(case.get("extras") or [])
+        if any(pd["mms"][k] is None for k in range(npool)):
+            return None  # a pool metamodel whose creation failed is outside the machine
+        mms = []
+        for k, m in enumerate(pd["mms"]):
+            mms.append(None if m is None else {
+                "top": m["top"], "comments": m["comments"], "memo": m["memo"], "skipws": m["skipws"], "ws": m["ws"],
+                "debug": bool(cfgs[k]["opts"].get("debug", False)), "user": m["user"]})
+        inps, index = [], {}
+        for k, lst in pd["toks"].items():
+            own = len(pd["mms"][int(k)]["own"])
+            for text, rows in lst:
+                index[(int(k), text)] = len(inps)
+                inps.append({"input": text, "toks": rows, "fuel": min(20000, 60 + 8 * (len(text) + 2) * (own + 2))})
+        hists, idx = [], []
+        for h, (ops, run) in enumerate(zip(case["histories"], obs["runs"])):
+            if "crash" in run or run.get("lean", {}).get("nnodes") != len(pd["nodes"]):
+                continue  # node numbering of this history is not the canonical one (a creation failed)
+            lops = self.lean_ops(case, ops, run, index)
+            if lops is not None:
+                hists.append(lops)
+                idx.append(h)
+        obs["_lean_idx"] = idx
+        if not hists:
+            return None
+        return {"op": "case", "nodes": pd["nodes"], "mms": mms, "inps": inps, "hists": hists}
+
+    def compare(self, case, obs, out):
+        if "runs" not in out:
+            return f"model rejected the request: {str(out)[:200]}"
+        npool = len(case["pool"])
+        for h, ans in zip(obs.get("_lean_idx", []), out["runs"]):
+            ops, run = case["histories"][h], obs["runs"][h]
+            if "outs" not in ans:
+                return f"history {h}: model rejected the request: {str(ans)[:200]}"
+            louts, lhid = ans["outs"][npool:], ans["hid"][npool:]
+            # state "pool created"
+            d = self.hid_diff(obs["hid0"], ans["hid"][npool - 1], case, None)
+            if d:
+                return f"history {h}, state after pool creation: {d}"
+            for i, (op, st) in enumerate(zip(ops, run["hist"])):
+                where = f"history {h} op {i} {self.op_view(op) if op[0] != 'new' else '[new mm%d]' % op[1]}"
+                d = self.hid_diff(st["hid"], lhid[i], case, st)
+                if d:
+                    return f"{where}: surviving state differs: {d}"
+                if op[0] == "new":
+                    continue
+                d = self.out_diff(st, louts[i], run["lean"]["trees"][i])
+                if d:
+                    return f"{where}: {d}"
+        return None
+
+    @staticmethod
+    def out_diff(st, lo, tree):
+        out = st["out"]
+        ph = phase_of(out)
+        clone = st["hid"].get("clone")
+        if ph == "skip":
+            return None if lo["phase"] == "skip" else f"implementation skipped, model phase {lo['phase']}"
+        if ph == "other":
+            return None  # RecursionError / timeout of the implementation: nothing to compare
+        parses = lo["parses"]
+        if any(p.get("err") == "fuel" for p in parses):
+            return None
+        if ph == "parse":
+            if lo["phase"] != "parse":
+                return f"implementation reports a syntax error, model phase {lo['phase']}"
+            if clone and clone.get("nm_pos") is not None and parses[-1].get("nomatch") != clone["nm_pos"]:
+                return f"syntax error position: implementation {clone['nm_pos']}, model {parses[-1]}"
+            if clone and clone.get("misses") is not None and clone["misses"] != lo["stores"][-1]:
+                return f"memo cache stores of the failing parse: implementation {clone['misses']}, model {lo['stores'][-1]}"
+            return None
+        if lo["phase"] == "parse":
+            return f"model reports a syntax error in file {lo.get('i')}, implementation outcome {ph}"
+        if tree is not None and parses and parses[0].get("ok") != tree:
+            return f"parse tree differs: implementation {str(tree)[:200]} model {str(parses[0])[:200]}"
+        if ph == "ok" and clone and clone.get("misses") is not None and clone["misses"] != lo["stores"][0]:
+            return f"memo cache stores: implementation {clone['misses']}, model {lo['stores'][0]}"
+        real_seq = [(e[4] or 0) for e in out.get("log", []) if e[0] == "init"]
+        if ph == "ok" and real_seq != lo["initSeq"]:
+            return f"instrumentation counts seen by __init__: implementation {real_seq}, model {lo['initSeq']}"
+        if ph != "ok" and real_seq != lo["initSeq"][:len(real_seq)]:
+            return f"instrumentation counts seen by __init__ (failing load): implementation {real_seq}, model {lo['initSeq']}"
+        return None
+
+    @staticmethod
+    def hid_diff(real, lean, case, st):
+        if real["cache"] != lean["cache"]:
+            return f"memo cache entries at rest: implementation {real['cache']}, model {lean['cache']}"
+        for k, (rb, lb) in enumerate(zip(real["bp"], lean["bp"])):
+            if rb != lb:
+                return f"blueprint containers of mm{k}: implementation {rb}, model {lb}"
+        for k, row in enumerate(real["cls"]):
+            for name, instr, reals, nattrs, dunders in row:
+                if (instr or 0) != lean["instr"][k]:
+                    return f"_tx_instrumented of {name} (mm{k}): implementation {instr}, model {lean['instr'][k]}"
+                if lean["instr"][k] == 0 and (reals or dunders):
+                    return f"class {name} (mm{k}) keeps instrumentation leftovers {reals} {dunders}"
+            tot = sum((r[3] or 0) for r in row)
+            if row and tot != lean["attrs"][k]:
+                return f"_tx_obj_attrs entries (mm{k}): implementation {tot}, model {lean['attrs'][k]}"
+        if sorted(map(list, real["gp"])) != sorted(map(list, lean["gp"])):
+            return f"grammar parser cache: implementation {real['gp']}, model {lean['gp']}"
+        if real["base_owner"] != lean["owner"]:
+            return f"owner of the shared base-type rules: implementation mm{real['base_owner']}, model mm{lean['owner']}"
+        c = real.get("clone")
+        if c and (c["alias"] or c["is_bp"]):
+            return f"the parser clone shares {c['alias']} with the blueprint (is blueprint: {c['is_bp']}); the model's clone shares nothing"
+        return None
 
     # ---- direct oracle -----------------------------------------------------------------
     def oracle(self, case, obs):
@@ -482,12 +672,12 @@ class Prop(Check):
                         return (f"history {h} op {i}: creating metamodel {op[1]} after {self.prefix(ops, i)} gives "
                                 f"{str(out['err'])[:160]}, alone on a fresh process state {str(solo)[:160]}")
                     continue
-                if "skip" in out:
-                    continue
+                if "skip" in out or out.get("other") == "Timeout":
+                    continue  # a time-out is an infrastructure matter, never evidence about the property
                 key = op_key(op)
                 for name, ref in (("the pool-created state", obs["r1"].get(key) if op[1] < npool else None),
                                   ("a fresh process with only this metamodel", obs["r2"].get(key))):
-                    if ref is None:
+                    if ref is None or ref.get("other") == "Timeout" or "crash" in ref:
                         continue
                     if ref != out:
                         return (f"history {h} op {i} {self.op_view(op)} after {self.prefix(ops, i)}: "
@@ -542,11 +732,49 @@ class Prop(Check):
     def sample_view(self, case, obs):
         v = {"pool": [dict(kind=c.get("kind"), opts=c["opts"], classes=c.get("classes"), objprocs=c.get("objprocs"),
                            modelprocs=c.get("modelprocs"), scope=c.get("scope")) for c in case["pool"]],
-             "histories": [[[o[0], o[1], str(o[2])[:40]] for o in ops] for ops in case["histories"][:2]]}
+             "histories": [[[o[0], o[1]] + ([str(o[2])[:40]] if len(o) > 2 else []) for o in ops]
+                           for ops in case["histories"][:2]]}
         if "runs" in obs:
             v["outcomes"] = [[phase_of(st["out"]) if "created" not in st["out"] else "new" for st in run.get("hist", [])]
                              for run in obs["runs"][:2]]
         return v
+
+    def extra_evidence(self, cases, obs, outs):
+        from collections import Counter
+
+        ph, kinds = Counter(), Counter()
+        hist = ops = compared_r1 = compared_r2 = lean_h = memo_loads = multi = after_fail = 0
+        for c, o, m in zip(cases, obs, outs):
+            for cfg in c["pool"] + c.get("extras", []):
+                kinds[cfg.get("kind")] += 1
+            if "runs" not in o:
+                continue
+            lean_h += len(m.get("runs", [])) if isinstance(m, dict) else 0
+            npool = len(c["pool"])
+            for hops, run in zip(c["histories"], o["runs"]):
+                hist += 1
+                failed = set()
+                for op, st in zip(hops, run.get("hist", [])):
+                    ops += 1
+                    if op[0] == "new":
+                        ph["new"] += 1
+                        continue
+                    p = phase_of(st["out"])
+                    ph[p] += 1
+                    k = op_key(op)
+                    compared_r1 += (k in o["r1"]) and op[1] < npool
+                    compared_r2 += k in o["r2"]
+                    cl = st["hid"].get("clone") or {}
+                    memo_loads += bool(cl.get("misses"))
+                    multi += op[0] == "file"
+                    if p == "ok" and op[1] in failed:
+                        after_fail += 1
+                    if p not in ("ok", "skip"):
+                        failed.add(op[1])
+        return {"histories": hist, "operations": ops, "outcome_phases": dict(ph), "metamodel_kinds": dict(kinds),
+                "compared_with_pool_state_reference": compared_r1, "compared_with_solo_reference": compared_r2,
+                "histories_replayed_by_lean": lean_h, "loads_with_memo_cache_stores": memo_loads,
+                "file_loads": multi, "successful_loads_after_a_failed_load_of_the_same_metamodel": after_fail}
 
     def extra_search(self, rng, tier, broken):
         return [gen_case(rng.fork(i), tier) for i in range(40 if tier == "quick" else 200)]
